@@ -1282,6 +1282,326 @@ fn case_sniff(r: &mut Rng) -> (String, String, String, bool, &'static str) {
 }
 
 
+
+// ------------------------------------------------------------------ header-field boundaries
+// Values given by a formula of (seed, row, column), evaluated identically in Run/RunC19.v
+// (gen_val, dstep, digest_bytes, digest_vals): the case file stays small, the judgement
+// (row lengths = criterion count, same values) is made in Coq.
+
+const GEN_SPECIALS: [u64; 8] = [
+    0,
+    9223372036854775808,
+    9218868437227405312,
+    18442240474082181120,
+    9221120237041090560,
+    9218868437227405313,
+    9218868437227405311,
+    1,
+];
+fn gen_val(seed: u64, r: u64, c: u64) -> u64 {
+    let v0 = seed
+        .wrapping_add(r.wrapping_mul(11400714819323198485))
+        .wrapping_add(c.wrapping_mul(13787848793156543929));
+    let v = v0 ^ (v0 >> 31);
+    if v >> 60 == 0 {
+        GEN_SPECIALS[(v & 7) as usize]
+    } else {
+        v
+    }
+}
+fn dstep(h: u64, x: u64) -> u64 {
+    (h << 5).wrapping_add(h >> 2).wrapping_add(h).wrapping_add(x).wrapping_add(1)
+}
+const DINIT: u64 = 14695981039346656037;
+fn digest_bytes(b: &[u8]) -> u64 {
+    let mut h = DINIT;
+    let mut it = b.chunks_exact(8);
+    for c in &mut it {
+        h = dstep(h, u64::from_le_bytes(c.try_into().unwrap()));
+    }
+    for x in it.remainder() {
+        h = dstep(h, *x as u64);
+    }
+    h
+}
+fn digest_vals<I: IntoIterator<Item = u64>>(xs: I) -> u64 {
+    xs.into_iter().fold(DINIT, dstep)
+}
+fn coq_sum(b: &Option<Vec<u8>>) -> String {
+    match b {
+        Some(b) => format!("(Some ({}, {}))", b.len(), digest_bytes(b)),
+        None => "None".into(),
+    }
+}
+
+const CRIT_BOUNDARIES: [usize; 13] =
+    [255, 256, 257, 4095, 4096, 8191, 8192, 8193, 8197, 16384, 32767, 32768, 65535];
+
+/// `slot`: which boundary case of the run this is (one per shard of 100 cases): every run of
+/// 1600 cases visits all 13 criterion-count boundaries once, with 1..3 rows (0 rows one time in 8)
+fn case_weights_big(r: &mut Rng, slot: usize, rows_field: bool) -> (String, String, String, bool, &'static str) {
+    let is_int = r.chance(1, 2);
+    let seed = r.next();
+    // criterion counts at the boundaries of the 16-bit header field, few rows; or one / two
+    // criteria and a row count around 2^16 (the u64 row-count field)
+    let (crit, rows, name): (usize, usize, &'static str) = if rows_field {
+        (1, *r.pick(&[65535usize, 65536, 65537]), "wbig_rows_2pow16")
+    } else {
+        let c = CRIT_BOUNDARIES[slot % CRIT_BOUNDARIES.len()];
+        let n = if r.chance(1, 8) { 0 } else if c >= 16384 { 1 + r.below(2) as usize } else { 1 + r.below(3) as usize };
+        (c, n, if n == 0 { "wbig_no_rows" } else if c >= 8192 { "wbig_criteria_ge_8192" } else { "wbig_criteria_lt_8192" })
+    };
+    let vals: Vec<Vec<u64>> =
+        (0..rows).map(|i| (0..crit).map(|j| gen_val(seed, i as u64, j as u64)).collect()).collect();
+    let a = if is_int {
+        WArr::I(vals.iter().map(|row| row.iter().map(|x| *x as i64).collect()).collect())
+    } else {
+        WArr::F(vals.clone())
+    };
+    let wbytes = write_weights(&a);
+    let (rb_coq, rb_json) = match &wbytes {
+        None => ("IRPanic".to_string(), "{\"panic\":\"write failed\"}".to_string()),
+        Some(b) => {
+            let b = b.clone();
+            match guarded(0, T, move || mesh_io::weight::read(&b[..])) {
+                Guarded::Done(Ok(arr)) => {
+                    let (tag, lens, d): (bool, Vec<usize>, u64) = match &arr {
+                        Array::Integers(v) => (
+                            true,
+                            v.iter().map(|x| x.len()).collect(),
+                            digest_vals(v.iter().flat_map(|x| x.iter().map(|y| *y as u64))),
+                        ),
+                        Array::Floats(v) => (
+                            false,
+                            v.iter().map(|x| x.len()).collect(),
+                            digest_vals(v.iter().flat_map(|x| x.iter().map(|y| y.to_bits()))),
+                        ),
+                    };
+                    let lens_s: Vec<String> = lens.iter().map(|x| x.to_string()).collect();
+                    // run-length form of the row lengths for the JSON (they are all equal when correct)
+                    let mut distinct = lens.clone();
+                    distinct.dedup();
+                    (
+                        format!("(IROk ({}, {}, {}))", coq_bool(tag), coq_list(&lens_s, "N"), d),
+                        format!(
+                            "{{\"ok\":{{\"integers\":{},\"rows\":{},\"distinct_row_lengths\":{},\"digest\":{}}}}}",
+                            tag,
+                            lens.len(),
+                            json_usizes(&distinct),
+                            d
+                        ),
+                    )
+                }
+                Guarded::Done(Err(e)) => {
+                    let code = match e {
+                        mesh_io::weight::Error::BadHeader => 0,
+                        mesh_io::weight::Error::UnsupportedVersion => 1,
+                        mesh_io::weight::Error::Io(_) => 2,
+                    };
+                    (format!("(IRErr {})", code), format!("{{\"err\":{}}}", json_str(&format!("{:?}", e))))
+                }
+                Guarded::Panic(m) => ("IRPanic".to_string(), format!("{{\"panic\":{}}}", json_str(&m))),
+                Guarded::Hang => ("IRHang".to_string(), "{\"hang\":true}".to_string()),
+            }
+        }
+    };
+    let coq = format!(
+        "KWeightsBig {} {} {} {} {} {}",
+        coq_bool(is_int),
+        crit,
+        rows,
+        seed,
+        coq_sum(&wbytes),
+        rb_coq
+    );
+    let first: Vec<String> = vals.first().map(|r| r.iter().take(4).map(|x| format!("\"{:016x}\"", x)).collect()).unwrap_or_default();
+    let json = format!(
+        "{{\"kind\":\"weights_boundary\",\"integers\":{},\"criteria\":{},\"rows\":{},\"value_formula\":\"gen_val(seed={}, row, column) of harness/src/bin/c19.rs = Run/RunC19.v (64-bit patterns; integers: as i64)\",\"first_values_bits\":[{}],\"written_len\":{},\"read_back\":{}}}",
+        is_int,
+        crit,
+        rows,
+        seed,
+        first.join(","),
+        wbytes.as_ref().map(|b| b.len() as i64).unwrap_or(-1),
+        rb_json
+    );
+    let key = format!("WB{}|{}|{}|{}", is_int, crit, rows, seed);
+    (coq, json, key, rows >= 1, name)
+}
+
+fn case_partition_big(r: &mut Rng, large: bool) -> (String, String, String, bool, &'static str) {
+    let seed = r.next();
+    let n = if large { *r.pick(&[65535usize, 65536, 65537]) } else { *r.pick(&[255usize, 256, 257, 70000]) };
+    let ids: Vec<usize> = (0..n).map(|j| gen_val(seed, 0, j as u64) as usize).collect();
+    let mut buf: Vec<u8> = Vec::new();
+    let wbytes = match mesh_io::partition::write(&mut buf, ids.iter().cloned()) {
+        Ok(()) => Some(buf),
+        Err(_) => None,
+    };
+    let (rb_coq, rb_json) = match &wbytes {
+        None => ("IRPanic".to_string(), "{\"panic\":\"write failed\"}".to_string()),
+        Some(b) => {
+            let b = b.clone();
+            match guarded(0, T, move || mesh_io::partition::read(&b[..])) {
+                Guarded::Done(Ok(v)) => {
+                    let d = digest_vals(v.iter().map(|x| *x as u64));
+                    (
+                        format!("(IROk ({}, {}))", v.len(), d),
+                        format!("{{\"ok\":{{\"len\":{},\"digest\":{}}}}}", v.len(), d),
+                    )
+                }
+                Guarded::Done(Err(e)) => {
+                    let code = match e {
+                        mesh_io::partition::Error::BadHeader => 0,
+                        mesh_io::partition::Error::UnsupportedVersion => 1,
+                        mesh_io::partition::Error::Io(_) => 2,
+                    };
+                    (format!("(IRErr {})", code), format!("{{\"err\":{}}}", json_str(&format!("{:?}", e))))
+                }
+                Guarded::Panic(m) => ("IRPanic".to_string(), format!("{{\"panic\":{}}}", json_str(&m))),
+                Guarded::Hang => ("IRHang".to_string(), "{\"hang\":true}".to_string()),
+            }
+        }
+    };
+    let coq = format!("KPartBig {} {} {} {}", n, seed, coq_sum(&wbytes), rb_coq);
+    let json = format!(
+        "{{\"kind\":\"partition_boundary\",\"ids\":{},\"value_formula\":\"gen_val(seed={}, 0, index)\",\"written_len\":{},\"read_back\":{}}}",
+        n,
+        seed,
+        wbytes.as_ref().map(|b| b.len() as i64).unwrap_or(-1),
+        rb_json
+    );
+    let key = format!("PB{}|{}", n, seed);
+    (coq, json, key, true, "pbig_ids_2pow8_2pow16")
+}
+
+
+/// a mesh given by the same formula as Run/RunC19.gen_mesh
+fn gen_mesh_big(tab: bool, dim: usize, n: usize, e: usize, seed: u64) -> MeshData {
+    let coord_tab: [u64; 8] = [
+        0.0f64.to_bits(),
+        (-0.0f64).to_bits(),
+        1.0f64.to_bits(),
+        (-1.5f64).to_bits(),
+        0.1f64.to_bits(),
+        1e15f64.to_bits(),
+        0.000025f64.to_bits(),
+        9007199254740994.0f64.to_bits(),
+    ];
+    let nmask: u64 = if n >= 65536 { 65535 } else { 3 };
+    let coords = (0..dim * n)
+        .map(|i| {
+            let v = gen_val(seed, 0, i as u64);
+            if tab { coord_tab[(v & 7) as usize] } else { v }
+        })
+        .collect();
+    let nrefs = (0..n).map(|i| gen_val(seed, 1, i as u64) as isize).collect();
+    let topo = vec![
+        (ElementType::Triangle, vec![0, 1, 2], vec![gen_val(seed, 4, 0) as isize]),
+        (
+            ElementType::Edge,
+            (0..2 * e).map(|k| (gen_val(seed, 2, k as u64) & nmask) as usize).collect(),
+            (0..e).map(|k| gen_val(seed, 3, k as u64) as isize).collect(),
+        ),
+    ];
+    MeshData { dim, coords, nrefs, topo }
+}
+
+fn ty_idx(t: ElementType) -> u64 {
+    match t {
+        ElementType::Vertex => 0,
+        ElementType::Edge => 1,
+        ElementType::Triangle => 2,
+        ElementType::Quadrangle => 3,
+        ElementType::Quadrilateral => 4,
+        ElementType::Tetrahedron => 5,
+        ElementType::Hexahedron => 6,
+    }
+}
+/// (dimension, #nodes, #elements, digest) as Run/RunC19.mesh_sum
+fn mesh_sum(m: &MeshData) -> (usize, usize, usize, u64) {
+    let mut v: Vec<u64> = vec![m.dim as u64, m.coords.len() as u64];
+    v.extend(m.coords.iter().cloned());
+    v.push(m.nrefs.len() as u64);
+    v.extend(m.nrefs.iter().map(|x| *x as u64));
+    v.push(m.topo.len() as u64);
+    for (t, ns, rs) in &m.topo {
+        v.push(ty_idx(*t));
+        v.push(ns.len() as u64);
+        v.extend(ns.iter().map(|x| *x as u64));
+        v.push(rs.len() as u64);
+        v.extend(rs.iter().map(|x| *x as u64));
+    }
+    (m.dim, m.nrefs.len(), m.topo.iter().map(|b| b.2.len()).sum(), digest_vals(v))
+}
+
+fn case_medit_big(r: &mut Rng, ascii: bool, many_nodes: bool) -> (String, String, String, bool, &'static str) {
+    let seed = r.next();
+    let dim = 2 + r.below(2) as usize;
+    let big = *r.pick(&[65535usize, 65536, 65537]);
+    let (n, e) = if many_nodes { (big, 1 + r.below(5) as usize) } else { (4 + r.below(5) as usize, big) };
+    let md = gen_mesh_big(ascii, dim, n, e, seed);
+    let md2 = md.clone();
+    let w = guarded(0, T, move || -> Option<Vec<u8>> {
+        let mesh = md2.build();
+        if ascii {
+            Some(mesh.display_medit_ascii().to_string().into_bytes())
+        } else {
+            let mut buf: Vec<u8> = Vec::new();
+            mesh.serialize_medit_binary(&mut buf).ok().map(|()| buf)
+        }
+    });
+    let wbytes = match w {
+        Guarded::Done(b) => b,
+        _ => None,
+    };
+    // std alone: text and parse of the 8 table values
+    let mut pt = Vec::new();
+    if ascii {
+        for x in [0.0f64, -0.0, 1.0, -1.5, 0.1, 1e15, 0.000025, 9007199254740994.0] {
+            let text = format!("{}", x);
+            let back = match text.parse::<f64>() {
+                Ok(y) => format!("(Some {})", y.to_bits()),
+                Err(_) => "None".to_string(),
+            };
+            pt.push(format!("({}, {}, {})", x.to_bits(), coq_bytes(text.as_bytes()), back));
+        }
+    }
+    let (rb_coq, rb_json) = match &wbytes {
+        None => ("IRPanic".to_string(), "{\"panic\":\"write failed\"}".to_string()),
+        Some(b) => {
+            let b = b.clone();
+            match guarded(0, Duration::from_secs(60), move || run_reader(2, &b[..]).map(|m| mesh_sum(&m))) {
+                Guarded::Done(Ok((d, nn, ne, dg))) => (
+                    format!("(IROk ({}, {}, {}, {}))", d, nn, ne, dg),
+                    format!("{{\"ok\":{{\"dimension\":{},\"nodes\":{},\"elements\":{},\"digest\":{}}}}}", d, nn, ne, dg),
+                ),
+                Guarded::Done(Err((c, m))) => (format!("(IRErr {})", c), format!("{{\"err\":{},\"msg\":{}}}", c, json_str(&m))),
+                Guarded::Panic(m) => ("IRPanic".to_string(), format!("{{\"panic\":{}}}", json_str(&m))),
+                Guarded::Hang => ("IRHang".to_string(), "{\"hang\":true}".to_string()),
+            }
+        }
+    };
+    let coq = format!(
+        "KMeditBig {} {} {} {} {} [{}]%N {} {}",
+        coq_bool(ascii), dim, n, e, seed, pt.join(";"), coq_sum(&wbytes), rb_coq
+    );
+    let json = format!(
+        "{{\"kind\":\"medit_boundary\",\"ascii\":{},\"dimension\":{},\"nodes\":{},\"edge_elements\":{},\"value_formula\":\"gen_mesh(tab={}, dim, n, e, seed={}) of Run/RunC19.v = gen_mesh_big of harness/src/bin/c19.rs\",\"written_len\":{},\"read_back\":{}}}",
+        ascii, dim, n, e, ascii, seed,
+        wbytes.as_ref().map(|b| b.len() as i64).unwrap_or(-1),
+        rb_json
+    );
+    let key = format!("MBIG{}|{}|{}|{}|{}", ascii, dim, n, e, seed);
+    let name = match (ascii, many_nodes) {
+        (false, true) => "mbig_binary_nodes_2pow16",
+        (false, false) => "mbig_binary_elements_2pow16",
+        (true, true) => "mbig_ascii_nodes_2pow16",
+        (true, false) => "mbig_ascii_elements_2pow16",
+    };
+    (coq, json, key, true, name)
+}
+
 // ------------------------------------------------------------------ main
 
 fn main() {
@@ -1307,6 +1627,28 @@ fn main() {
         }
         let (coq, json, key, nontrivial, fam) = match r.below(32) {
             _ if big && (idx == 40 || idx == 41) => case_weights_limit(&mut r, idx == 41),
+            // header-field boundaries: one case in 100 (16 per quick run, 96 per thorough run),
+            // spread over the shards
+            // meshes with 2^16-ish nodes / elements: binary (nodes, elements) and ASCII (elements) in
+            // every run; ASCII with many nodes (the largest text) in the thorough tier only; 12 per
+            // thorough run
+            _ if idx % 100 == 58 && (idx / 100) % 4 == 1 && idx / 100 < 48 && (big || (idx / 100) % 16 != 9) => {
+                let k = (idx / 100) % 16 / 4;
+                case_medit_big(&mut r, k >= 2, k % 2 == 0)
+            }
+            _ if idx % 100 == 57 => {
+                let shard = idx / 100;
+                match shard % 16 {
+                    3 => case_partition_big(&mut r, true),
+                    11 => case_partition_big(&mut r, false),
+                    7 => case_weights_big(&mut r, 0, true),
+                    k => {
+                        // 13 slots per 16 shards, rotated by the seed
+                        let slot = k - (k > 3) as usize - (k > 7) as usize - (k > 11) as usize;
+                        case_weights_big(&mut r, slot + (a.seed % 13) as usize + 13 * (shard / 16), false)
+                    }
+                }
+            }
             0 | 1 | 2 => case_partition(&mut r, big),
             3 => case_partition_read(&mut r),
             4..=9 => case_weights(&mut r, big),
